@@ -99,7 +99,7 @@ func c05Step(t *rapid.T) kit.Argv {
 		}
 		return kit.A(a...)
 	case 11:
-		return kit.A("DEL", k)
+		return goneStep(t, k)
 	case 12:
 		return kit.A(cn("SADD"), k) // wrong arity
 	default:
@@ -144,6 +144,10 @@ func c05Gen(t *rapid.T) SeqCase {
 	for i := 0; i < n; i++ {
 		if rapid.IntRange(0, 39).Draw(t, "sparse") == 0 {
 			steps = append(steps, c05Sparse(t)...)
+			continue
+		}
+		if rapid.IntRange(0, 14).Draw(t, "gone") == 0 {
+			steps = append(steps, afterGone(t, []string{"s1", "s2", "s3", "s4", "dst"}, c05Step)...)
 			continue
 		}
 		steps = append(steps, c05Step(t))
